@@ -292,6 +292,10 @@ type pipeSpec struct {
 	// acknowledges them) while PushMetrics is still writing the batch
 	largePoints, largePad int
 	largeBytes            bool // the pad is a bytes attribute (not dictionary encoded)
+	// rejectFrom > 0: the consumer rejects permanently every batch of a stream from this index on
+	// (rejectAlternate: only every second one of those)
+	rejectFrom      int
+	rejectAlternate bool
 	// cancel: goroutine 0 keeps the exporter busy with large pushes; the other goroutines push small
 	// batches whose context is cancelled a few milliseconds after the call starts. A push that
 	// returns an error is RETRIED with a fresh context, as a collector pipeline does: an export
@@ -323,6 +327,17 @@ func runPipelineCase(name string, sp pipeSpec, seed uint64) *caseOut {
 			}
 		}
 	}
+	if sp.rejectFrom > 0 {
+		cfgStream = func(st *streamRec) {
+			for i := 0; i < 64; i++ {
+				out := "accept"
+				if i >= sp.rejectFrom && (!sp.rejectAlternate || (i-sp.rejectFrom)%2 == 0) {
+					out = "perm"
+				}
+				st.cons.outcomes = append(st.cons.outcomes, out)
+			}
+		}
+	}
 	rs, err := startRecvServer(cfgStream)
 	if err != nil {
 		c.note("note cannot listen on loopback: %v", err)
@@ -339,7 +354,7 @@ func runPipelineCase(name string, sp pipeSpec, seed uint64) *caseOut {
 		}
 	}
 	var mu sync.Mutex
-	pushed := map[string]*pushRec{} // by push tag
+	pushed := map[string]*pushRec{}       // by push tag
 	perExp := make([]int, sp.exporters)   // accepted data points per exporter
 	perStale := make([]int, sp.exporters) // of which staleness markers
 	var wg sync.WaitGroup
@@ -583,6 +598,11 @@ func runPipelineCase(name string, sp pipeSpec, seed uint64) *caseOut {
 				c.fail("push-split", "push %s: %d points pushed, %d in the stream", t, len(rec.points), seen[t])
 			}
 		}
+		if sp.rejectFrom > 0 {
+			// the pipeline model (Stef/Pipeline.lean) has no rejecting consumer: these cases are
+			// judged by the oracles above only
+			continue
+		}
 		// model run: pushes in stream order, frames as the receiver saw them, acks as it sent them
 		c.emit("pl new", "ok")
 		sentAcks := map[int]bool{}
@@ -731,6 +751,16 @@ func runC19(want func(string) bool) {
 		comp := []string{"none", "zstd"}[k%2]
 		add(fmt.Sprintf("pipe-manysmall-%d", k), pipeSpec{exporters: 1, compression: comp, goroutines: 1, pushes: 3, maxPoints: 8, pause: aroundFlush,
 			largePoints: 50000 + r.Intn(20000), largePad: 40 + r.Intn(30), largeBytes: true})
+	}
+	for k := 0; k < 4*mult; k++ {
+		// the consumer behind the receiver rejects batches permanently (from the rejectFrom-th batch of
+		// a stream on, or every second one): a rejected batch is reported as bad data, and that
+		// response also carries the acknowledgement id - the batches delivered before it must still
+		// be acknowledged to the exporter, and its pending list must drain
+		comp := []string{"none", "zstd"}[k%2]
+		add(fmt.Sprintf("pipe-reject-%d", k), pipeSpec{exporters: 1, compression: comp, goroutines: 1, pushes: 3 + r.Intn(4), maxPoints: 6,
+			pause:      func(r *rng.R) time.Duration { return time.Duration(115000+r.Intn(30000)) * time.Microsecond }, // one frame per push
+			rejectFrom: 1 + r.Intn(3), rejectAlternate: k%4 >= 2})
 	}
 	runCases(4, jobs)
 }
